@@ -270,10 +270,14 @@ class Runner:
                     r, w = os.pipe()
                     os.write(w, bytes([120, 120]))
                     dn = os.open("/dev/null", os.O_RDWR)
+                    cr, cw = os.pipe()          # whatever it writes to "its spawners" (descriptors 1 and 3): delivery commands
+                    os.set_blocking(cr, False)
 
                     def pre():
-                        for fd in (0, 1, 3, 5, 6):
+                        for fd in (0, 5, 6):
                             os.dup2(dn, fd)
+                        os.dup2(cw, 1)
+                        os.dup2(cw, 3)
                         os.dup2(r, 2)
                         os.dup2(r, 4)
                     pp = subprocess.Popen([self.tree.bin("qmail-send")], env=e2, preexec_fn=pre, close_fds=False)
@@ -287,9 +291,19 @@ class Runner:
                     class _P:
                         returncode = rc2
                     p2 = _P()
-                    os.close(r); os.close(w); os.close(dn)
+                    os.close(r); os.close(w); os.close(dn); os.close(cw)
+                    cmdbytes = b""
+                    try:
+                        while True:
+                            d = os.read(cr, 65536)
+                            if not d:
+                                break
+                            cmdbytes += d
+                    except BlockingIOError:
+                        pass
+                    os.close(cr)
                     muts = [x for x in sandbox.read_trace(tr) if x["c"] in ("unlink", "link", "rename", "write") and x.get("res", -1) >= 0 and "/queue/" in (x.get("path") or x.get("obj") or "")]
-                    ctl.emit({"c": "ctl", "op": "second", "status": p2.returncode, "mutations": len(muts)})
+                    ctl.emit({"c": "ctl", "op": "second", "status": p2.returncode, "mutations": len(muts), "delcmd_bytes": len(cmdbytes), "delcmd": cmdbytes[:120].hex()})
                 elif op == "answer":
                     self.answer_all(order=act[1] if len(act) > 1 else "fifo")
                 elif op == "advance":
@@ -379,7 +393,7 @@ class Runner:
         if h.get("keep_fs"):
             import qqrun
             out["fs"] = qqrun.fs_events(trace, ctl.qdir)
-            out["second"] = [e for e in trace if e.get("c") == "ctl" and e.get("op") == "second"]
+        out["second"] = [e for e in trace if e.get("c") == "ctl" and e.get("op") == "second"]
         return out
 
     def _clean_restart(self):
